@@ -223,6 +223,40 @@ func lenAboveEdges(fn *ssa.Function, isList func(ssa.Value) bool, k int64) []Edg
 	return guard
 }
 
+// callResultList: v is the slice result of a call to a function of the storage or repository layer
+// (a list of stored releases or of index entries), possibly through a phi of such results.
+func callResultList(v ssa.Value) (string, bool) {
+	if ex, ok := v.(*ssa.Extract); ok {
+		v = ex.Tuple
+	}
+	c, ok := v.(*ssa.Call)
+	if !ok {
+		return "", false
+	}
+	if _, isSlice := c.Common().Signature().Results().At(0).Type().Underlying().(*types.Slice); !isSlice {
+		return "", false
+	}
+	var name string
+	if c.Common().IsInvoke() {
+		recv := c.Common().Value.Type().String()
+		if !strings.Contains(recv, helmMod+"/pkg/storage") {
+			return "", false
+		}
+		name = "driver." + c.Common().Method.Name()
+	} else {
+		f, _ := calleeOf(c.Common())
+		if f == nil || !inHelm(f) {
+			return "", false
+		}
+		p := fnPkgPath(f)
+		if !strings.Contains(p, "/pkg/storage") && !strings.Contains(p, "/pkg/repo") {
+			return "", false
+		}
+		name = FuncName(f)
+	}
+	return "result of " + name, true
+}
+
 // decodedListField: a slice-typed field of a struct type of helm that is decoded from external data
 // (it carries a json or yaml tag).
 func decodedListField(fa *ssa.FieldAddr) (string, bool) {
@@ -270,6 +304,11 @@ func c20IndexGuard(w *World, r *Report) {
 				if !isC {
 					continue
 				}
+				// (b) a list returned by a helm function (a query result): its length is not known either
+				if fld, ok := callResultList(ia.X); ok {
+					sites = append(sites, site{fn, ia, fld, k})
+					continue
+				}
 				ld, ok := ia.X.(*ssa.UnOp)
 				if !ok || ld.Op != token.MUL {
 					continue
@@ -289,7 +328,7 @@ func c20IndexGuard(w *World, r *Report) {
 	for _, s := range sites {
 		g := FullGraph(s.fn)
 		want := nf(s.ia.X, 0)
-		guard := lenAboveEdges(s.fn, func(v ssa.Value) bool { return nf(v, 0) == want }, s.k)
+		guard := lenAboveEdges(s.fn, func(v ssa.Value) bool { return v == s.ia.X || nf(v, 0) == want }, s.k)
 		ok := false
 		if len(guard) > 0 {
 			ex, _ := g.PathExists(entryPos(s.fn), posOf(s.ia), Avoid{}.withEdges(guard...))
